@@ -209,7 +209,8 @@ class QuadCell(CellBase):
         side_1 = f.unit_vector(points[2] - points[1])
         side_2 = f.unit_vector(points[0] - points[1])
 
-        return np.expand_dims(180 * np.arccos(np.dot(side_1, side_2)) / np.pi - 90, axis=0)
+        # unit vectors: rounding can push the product of two (anti)parallel ones just outside of [-1, 1]
+        return np.expand_dims(180 * np.arccos(np.clip(np.dot(side_1, side_2), -1.0, 1.0)) / np.pi - 90, axis=0)
 
 
 class HexCell(CellBase):
@@ -250,5 +251,6 @@ class HexCell(CellBase):
         side_2_norms = np.maximum(np.linalg.norm(sides_2, axis=1), VSMALL)
         sides_2 = sides_2 / side_2_norms[:, np.newaxis]
 
-        angles = np.sum(sides_1 * sides_2, axis=1)
+        # (a straight corner is a poor cell but not a degenerate one, whichever way it is turned)
+        angles = np.clip(np.sum(sides_1 * sides_2, axis=1), -1.0, 1.0)
         return 180 * np.arccos(angles) / np.pi - 90
